@@ -7,7 +7,8 @@ model = {
   "patches":      [(name, [partial indices])],
   "partials":     [(name, [sample indices (<= 4)])],
   "samples":      [dict(name=, words=bytes, chain=[clusters] or None, cluster_top=0, mode=0..6, start=, sustain_start=, sustain_end=,
-                        release_start=, release_end=, freq_code=0..5)],
+                        release_start=, release_end=, freq_code=0..5, fine=[5 bytes], tunes=(enable, sustain, release),
+                        sample_mode=0|1, key=midi byte)],
   "fat_version":  1 | 2,
 }
 """
@@ -116,9 +117,10 @@ def build(model):
         pts = [s.get("start", 0), s.get("sustain_start", 0), s.get("sustain_end", len(s["words"]) // 2 - 1),
                s.get("release_start", 0), s.get("release_end", len(s["words"]) // 2 - 1)]
         for j, p in enumerate(pts):
-            rec[16 + 4 * j:20 + 4 * j] = struct.pack("<I", ((p << 8) | (17 * (j + 1) % 256)) & 0xFFFFFFFF)
+            fine = s["fine"][j] if "fine" in s else 17 * (j + 1) % 256
+            rec[16 + 4 * j:20 + 4 * j] = struct.pack("<I", ((p << 8) | fine) & 0xFFFFFFFF)
         rec[36] = s.get("mode", 0)
-        rec[37], rec[38], rec[39] = 1, 3, 5
+        rec[37], rec[38], rec[39] = s.get("tunes", (1, 3, 5))
         top = s.get("cluster_top", 0)
         rec[40:44] = struct.pack("<HH", top, len(chain))
         rec[44] = ((s.get("sample_mode", 0) & 0xF) << 4) | (s.get("freq_code", 0) & 0xF)
